@@ -93,6 +93,7 @@ def run(env) -> Result:
             if (Ti.size, Ti.alignment, [f.offset for f in Ti.__fields__]) != (Tc.size, Tc.alignment, [f.offset for f in Tc.__fields__]):
                 eng.report("compiled and interpreted classes have different size/alignment/offsets", cd0, sigs)
             # generated source -> plan, validated by the model
+            psx = None
             if Tc.__compiled__ and "F23" not in sigs:
                 try:
                     plan = srcplan.parse_source(Tc._read.__func__.__source__)
@@ -100,6 +101,13 @@ def run(env) -> Result:
                     ok, why = srcplan.validate(plan, tree, Tc, refimpl.Cfg(endian, align, ptr, impl.CONSTS))
                     if not ok:
                         eng.disagree(f"generated source does not validate against the field list: {why}", dict(cd0, source=Tc._read.__func__.__source__), sigs)
+                    # the verified validator (Lean: Compiler.planOK, theorem c03_plan_sound) on the same plan
+                    psx = srcplan.plan_sexp(plan)
+
+                    def cb_ok(s, raw, meta):
+                        if s[0] != "ok":
+                            eng.disagree(f"the Lean plan validator does not accept the generated source ({raw[:80]})", meta, sigs)
+                    eng.ask(sx([A("planok"), Lc.cfg_sexp(), Lc.ty_sexp(), psx]), cb_ok, dict(cd0, source=Tc._read.__func__.__source__))
                 except srcplan.Unknown as e:
                     eng.disagree(f"generated source has a statement shape the plan translator does not know: {e}", dict(cd0, source=Tc._read.__func__.__source__), sigs)
             # behaviour
@@ -125,6 +133,17 @@ def run(env) -> Result:
                 if "F23" not in sigs:
                     eng.model_read(Lc, data, 0, wc if wc[0] == "ok" or wi[0] == "err" else wi, "compiled reader vs model of the interpreted reader",
                                    sigs) if (wc[0] == wi[0]) else None
+                    if psx is not None:
+                        # the model's execution of the plan (Compiler.exec) vs the real compiled reader
+                        def cb_ex(s, raw, meta, want=wc):
+                            if want[0] == "ok":
+                                ok = s[0] == "ok" and impl.same_val(want[1], s[1]) and int(s[2]) == want[2] and \
+                                    sorted((str(k), int(v)) for k, v in s[3] if int(v)) == want[3]
+                            else:
+                                ok = s[0] == "err" and str(s[1]) == want[1]
+                            if not ok:
+                                eng.disagree(f"model execution of the plan gives {raw[:300]}, the compiled reader gives {str(want)[:300]}", meta, sigs)
+                        eng.ask(sx([A("execplan"), Lc.cfg_sexp(), Lc.ty_sexp(), psx, data, 0]), cb_ex, cd)
             # every cut point of one accepted buffer
             if accepted is not None:
                 full, _ = real_parse(Ti, accepted)
